@@ -53,7 +53,8 @@ def collect(facts, rep):
         for lf, env, this, chain, lam in pend:
             done.add((lf.loc, lf.name, tuple(chain)))
             # the closure's `this` is the Thread object the creator ran on; captured pointers keep their meaning
-            wenv = {}
+            wenv = __import__('lockset').Env()
+            wenv.clos = dict(getattr(env, 'clos', {}) or {})          # closures captured by the body keep their meaning
             for c in lam.captures or []:
                 if 'decl' in c: wenv[c['decl']] = ('cap', c['var'])
             eng._run(__import__('lockset').Frame(lf, wenv, ('this',), ['<thread created in ' + chain[-1] + '>'], 0), frozenset(), ('worker', f'thread-body@{lf.shortloc()}'))
@@ -87,7 +88,9 @@ def run(facts, rep, tier):
     rep.count('roots', len(roots)); rep.count('thread_roots', len({(t[0].loc) for t in eng.thread_roots}))
     rep.count('field_accesses', len(eng.accesses))
     rep.floor('roots', len(roots), 25)
-    rep.floor('worker thread bodies', len({t[0].loc for t in eng.thread_roots}), 2)
+    for tn, chain in eng.unresolved_threads[:2]:
+        rep.inconclusive('DR.1', 'std::thread body', tn.shortloc(), f'the thread is given {tn.ns("args")[0].text()[:60] if tn.ns("args") and tn.ns("args")[0] is not None else "?"}, not a lambda the analysis can follow: the accesses of that thread are not analysed')
+    if not eng.unresolved_threads: rep.floor('worker thread bodies', len({(t[0].loc, tuple(sorted(c[0].shortloc() for c in getattr(t[1], 'clos', {}).values()))) for t in eng.thread_roots}), 2)
     rep.floor('field accesses (context-expanded)', len(eng.accesses), 400)
     for n, site in eng.depth_cut[:3]:
         rep.inconclusive('DR.1', f'inlining depth bound reached at {n}', site, 'call chain deeper than the analysis bound')
@@ -113,7 +116,12 @@ def run(facts, rep, tier):
     for r in sorted(skipped_roots):
         rep.note(f'{r} is outside the intended-use list of the property (setter called while workers run would race); not analysed as a root')
 
-    e4_ok, e4_why = common.quiescent_restart_write(facts)
+    import threadpool
+    tpa = threadpool.analyse(facts, rep)
+    e4_ok, e4_why = common.quiescent_restart_write(facts, tpa.res)
+    tp1 = [r for k in ('TP.1', 'TP.2') for r in tpa.res.get(k, [])]
+    e7_ok = bool(tp1) and all(r[0] is True for r in tp1)
+    rep.note(f'E7 (a task removed from the queue under m_queueMutex is owned by the worker that removed it) applicable: {e7_ok} — TP.1/TP.2: {len(tp1)} obligations')
     e5_ok, e5_why = common.pooled_thread_confined(facts)
     rep.check(True, 'DR.1', 'exemption E4 evaluated: ' + e4_why, 'src/threading/ThreadPool.cpp', '', nontrivial=True) if False else None
     rep.note(f'E4 (quiescent restart write) applicable: {e4_ok} — {e4_why}')
@@ -138,6 +146,8 @@ def run(facts, rep, tier):
         for x in (a, b):
             if x.root[0] == 'worker' and len(x.path) == 3 and x.path[0] == 'cap' and common.thread_body_deletes(facts, x.root[1], x.path[1]):
                 if a.root == b.root and a.path[:2] == b.path[:2]: return 'E6 (task object owned by the thread that runs and deletes it)'
+        if e7_ok and a.root[0] == 'worker' and b.root[0] == 'worker' and all(any(x.path[i:i + 2] == ('m_queue', '*') for i in range(len(x.path) - 1)) for x in (a, b)):
+            return 'E7 (task removed from the queue under m_queueMutex: owned by the worker that removed it)'
         if (cls, fld) == ('tulz::PooledThread', 'm_lastActiveTime') and e5_ok and a.root[0] == 'worker' and b.root[0] == 'worker':
             return 'E5 (each worker only reaches its own PooledThread)'
         return None
